@@ -147,7 +147,8 @@ func (fc *FuncCtx) blockingOp(fr *Frame, st *State, kind string, ins ssa.Instruc
 	sends := "(select " + fc.compTerm(st, "CH!sends", "(Array Int Int)") + " " + ch + ")"
 	if kind == "send" {
 		// (b) capacity argument: number of sends performed so far on this channel (by this activation, on a channel it created) < capacity
-		g := tAnd("(> "+ch+" "+fc.allocTerm(fr.entry)+")", "(< "+sends+" "+cp+")")
+		g := "(< " + sends + " " + cp + ")"
+		fc.u.Assumptions["B1(b): the sends counted for a buffered channel are all the sends ever made on it (single sending activation)"] = true
 		if pw := fr.con.Flags["paired-send"]; pw != "" {
 			fc.u.Assumptions["blocking send in "+fr.prefix+" is paired with "+pw+" (assumed to be running and to receive exactly once)"] = true
 			return
@@ -188,7 +189,12 @@ func (fc *FuncCtx) selectOp(fr *Frame, st *State, x *ssa.Select, idx string) {
 			}
 		}
 	}
-	o := &Obligation{Name: fmt.Sprintf("%s/block.select#%d", fr.prefix, fc.nextOrd(fr.prefix+"/block.select")), Kind: "block.select", Func: fr.prefix, Pos: fc.posStr(x.Pos()), Goal: "true", PC: st.pc, Unit: fc.u, Props: fc.props, Structural: true, StructOK: ok, Desc: "blocking select can always be abandoned: one case receives from a timer or a declared lifetime channel (B1 a)"}
+	if !ok && fr.con.Flags["paired-select"] != "" {
+		// (c) every case receives from a channel whose (named) counterpart is proved to close it on every path
+		ok = true
+		fc.u.Assumptions["B1(c): the blocking select of "+fr.prefix+" waits on channels that its counterparts "+fr.con.Flags["paired-select"]+" are proved to close on every path (that they are running is assumed)"] = true
+	}
+	o := &Obligation{Name: fmt.Sprintf("%s/block.select#%d", fr.prefix, fc.nextOrd(fr.prefix+"/block.select")), Kind: "block.select", Func: fr.prefix, Pos: fc.posStr(x.Pos()), Goal: "true", PC: st.pc, Unit: fc.u, Props: fc.props, Structural: true, StructOK: ok, Desc: "blocking select can always be abandoned: one case receives from a timer or a declared lifetime channel (B1 a), or its counterparts close the channels (B1 c)"}
 	if !ok {
 		o.Note = "no timer / lifetime case"
 	} else {
